@@ -107,6 +107,11 @@ func vModifiesHeap() {}
 // field of every Host object, "map[net/netip.Addr]" for maps of that type.
 func vModifiesMems(patterns ...string) {}
 
+// vReveal makes the definitions of the spec_opq_* functions visible in this
+// harness (elsewhere they are uninterpreted, so proofs go by congruence and
+// lemma instances instead of bit-blasting).
+func vReveal() {}
+
 // vStrictLen demands that the target never reslices a buffer beyond its length
 // (so that its result cannot depend on spare capacity).
 func vStrictLen() {}
